@@ -20,6 +20,7 @@ FAMILIES = {
     "c01": ("U01", "P01"),
     "c15": ("U15", "P15"),
     "rs": ("U01", "P01"),
+    "conc": ("Uconc", "Pconc"),
 }
 INVARIANTS = "Confluent DryRunNoChange NoCollateralDelete DeleteComplete ContentIdentical RepeatIsNoOp FilterExact"
 ACTIONS = ["SDeletePass", "SGen", "SRcv", "SFinish"]
